@@ -34,7 +34,7 @@ type wireMsg struct {
 }
 
 type dirState struct {
-	open     map[uint32]*wireMsg // call messages of this direction whose last fragment has not been emitted
+	open     map[uint64]*wireMsg // call messages of this direction whose last fragment has not been emitted (key: id, request/response)
 	// request ids emitted in this direction that have not yet seen a terminal in the other direction
 	inflight map[uint32]bool
 	// response-side automaton for ids requested from the OTHER direction:
@@ -45,7 +45,7 @@ type dirState struct {
 }
 
 func newDirState() *dirState {
-	return &dirState{open: map[uint32]*wireMsg{}, inflight: map[uint32]bool{}, resp: map[uint32]int{}, terminal: map[uint32]string{}, tainted: map[uint32]bool{}}
+	return &dirState{open: map[uint64]*wireMsg{}, inflight: map[uint32]bool{}, resp: map[uint32]int{}, terminal: map[uint32]string{}, tainted: map[uint32]bool{}}
 }
 
 func newWireOracle(w *World) *wireOracle {
@@ -106,14 +106,18 @@ func (o *wireOracle) frame(tf *TapFrame) {
 				w.violate("C01", "frame-without-chunk", "%s: %s", where, f)
 			}
 		}
-		m := me.open[f.ID]
+		okey := uint64(f.ID) << 1
+		if isRes {
+			okey |= 1 // requests and responses emitted in one direction use the two sides' independent id spaces
+		}
+		m := me.open[okey]
 		if isFirst {
 			if m != nil && real {
 				// a new first frame while the previous message with this id is unfinished
 				w.violate("C04", "id-reused-in-flight", "%s: %s starts while a message with the same id is still being sent", where, f)
 			}
 			m = &wireMsg{link: tf.Conn, dir: tf.Dir, emitter: em, first: tf, re: wire.NewReassembler(), isRes: isRes}
-			me.open[f.ID] = m
+			me.open[okey] = m
 			if !isRes {
 				if me.inflight[f.ID] && real {
 					w.violate("C04", "id-reused-in-flight", "%s: request id %d is already in flight on this connection", where, f.ID)
@@ -162,7 +166,7 @@ func (o *wireOracle) frame(tf *TapFrame) {
 		m.last = tf
 		if m.bad {
 			if !f.More() {
-				delete(me.open, f.ID)
+				delete(me.open, okey)
 			}
 			return
 		}
@@ -174,7 +178,7 @@ func (o *wireOracle) frame(tf *TapFrame) {
 				m.bad = true
 			}
 			if !f.More() {
-				delete(me.open, f.ID)
+				delete(me.open, okey)
 			}
 			return
 		}
@@ -194,13 +198,13 @@ func (o *wireOracle) frame(tf *TapFrame) {
 				}
 				m.bad = true
 				if !f.More() {
-					delete(me.open, f.ID)
+					delete(me.open, okey)
 				}
 				return
 			}
 		}
 		if !f.More() {
-			delete(me.open, f.ID)
+			delete(me.open, okey)
 			o.complete(m)
 		}
 	case wire.TError:
@@ -215,7 +219,7 @@ func (o *wireOracle) frame(tf *TapFrame) {
 					me.terminal[f.ID] = fmt.Sprintf("error frame code %#x", f.ErrCode)
 					delete(other.inflight, f.ID)
 					// an unfinished response message of this id ends here
-					delete(me.open, f.ID)
+					delete(me.open, uint64(f.ID)<<1|1)
 				}
 			}
 		}
